@@ -412,3 +412,36 @@ func inStrings(l []string, n int, s string) bool {
 //@   callsite Client.completeCommand(cc *Client, cmd command, e error) requires cmd != nil && (e == nil ==> typ == "OK")
 //@   ensures __result("Client.deletePendingCmdByTag") != 0 ==> __ghost("completed") == old(__ghost("completed"))+1
 //@   ensures __result("Client.deletePendingCmdByTag") == 0 ==> __ghost("completed") == old(__ghost("completed")) && err != nil
+
+// FETCH items: every item name written into the FETCH list was requested (no
+// item is invented or written under another option's name). That every
+// requested item is written is not proved for this table (the names go
+// straight to the encoder, there is no list to inspect afterwards).
+//
+//@ pure
+func fetchItemRequested(options *imap.FetchOptions, numKind imapwire.NumKind, s string) bool {
+	switch s {
+	case "UID":
+		return options.UID || numKind == imapwire.NumKindUID
+	case "BODY": // the plain item, or the start of a BODY[...] section item
+		return (options.BodyStructure != nil && !options.BodyStructure.Extended) || len(options.BodySection) > 0
+	case "BODYSTRUCTURE":
+		return options.BodyStructure != nil && options.BodyStructure.Extended
+	case "ENVELOPE":
+		return options.Envelope
+	case "FLAGS":
+		return options.Flags
+	case "INTERNALDATE":
+		return options.InternalDate
+	case "RFC822.SIZE":
+		return options.RFC822Size
+	case "MODSEQ":
+		return options.ModSeq
+	}
+	return true // atoms inside section items (.PEEK, specifiers, BINARY...) are not option names of this table
+}
+
+//@ func writeFetchItems(enc *imapwire.Encoder, numKind imapwire.NumKind, options *imap.FetchOptions)
+//@   props C02:callsite
+//@   requires options != nil
+//@   callsite Encoder.Atom(e *imapwire.Encoder, s string) requires fetchItemRequested(options, numKind, s)
